@@ -213,8 +213,10 @@ class Session:
             # dynamic loss scaling: the scale changes between optimisation steps (never inside one)
             self.scale_holder[0] = sched[self.iteration % len(sched)]
         self.iteration += 1
-        for _ in range(self.cfg['acc']):
+        for i_ in range(self.cfg['acc']):
             self.fwd_bwd(True, batch=((self.rng.choice([129, 200, 257]) if self.rng.random() < 0.03 else self.rng.randint(1, 8)) if vary_batch else None))
+            if i_ < self.cfg['acc'] - 1 and getattr(self, 'between', None) is not None:
+                self.between()   # something else happens in the process between two micro-batches of this accumulation window
         scale = self.scale_holder[0]
         if scale != 1.0:
             with torch.no_grad():
